@@ -39,6 +39,7 @@ class Exec(ExprMixin, CallMixin, StmtMixin):
     hash_handlers = {}
     fstring_handler = None
     conv_handlers = {}
+    empty_handlers = {}
     global_values = {}
     global_calls = {}
     type_aliases = {}
